@@ -39,14 +39,17 @@ def nontrivial(hist):
 def run(chk: Check):
     chk.rule = ('histories of 5-60 operations from one PRNG stream: create (file / in-memory) with cache sizes of 1, 2, 3 '
                 'items or unbounded, add, [] at old / last / one-past-the-end indices, len, iterate, sync, close, reopen '
-                'for append or read (any number of times, several paths); plus the corpus and integer-cache-size '
+                'for append or read (any number of times, several paths); rejected additions of every kind (missing required '
+                'value, other field sets, inconsistent identifier use, value larger than the cache, full in-memory store) at '
+                'every position incl. the first of a session, payloads of three sizes; plus the corpus and integer-cache-size '
                 'scenarios.  Non-trivial = contains a read of an old item after an addition in an append session, or a '
                 'read of an item evicted from the cache')
     gen = [{'name': f'gen:{i}', 'ops': su.gen_history(chk.rng, 'C07')} for i in range(chk.n(150, 2000))]
     def extra(chk, cfg):
         # reads through a cache smaller than the item read: oracle only (see store_util.oversized_read_scenarios)
         su.check_histories(chk, su.oversized_read_scenarios(), cfg, nontrivial, label='o', model=False)
-    su.run_property(chk, 'C07', PROPS, gen, nontrivial, scenarios=su.big_payload_scenarios(chk.rng, chk.n(3, 12)),
+    su.run_property(chk, 'C07', PROPS, gen, nontrivial,
+                    scenarios=su.big_payload_scenarios(chk.rng, chk.n(3, 12)) + su.rejected_first_add_scenarios(),
                     extra=extra)
 
 
